@@ -431,7 +431,7 @@ def cases(tier, seed=0):
     else:
       cs.append(Case("section %s (concrete)" % name, section_concrete_case, fname=name))
     cs.append(Case("form %s" % name, form_case, fname=name, tolerant=(kind == "tolerant" and name != "zbl")))
-  for order in range(0, 6 if tier == "quick" else 9):
+  for order in range(0, 10 if tier == "quick" else 13):
     cs.append(Case("form polynomial order %d" % order, form_case, fname="polynomial", variant=order))
   ns = [-2, -1, 0, 1, 2, 3, 0.5, -0.5, 1.5, -1.5] if tier == "quick" else list(range(-12, 13)) + [0.5, -0.5, 1.5, -1.5, 2.5, -2.5, 0.25, -0.75]
   for n in ns:
